@@ -64,7 +64,10 @@ def tv(v, depth=0):
         except OverflowError:
             return ["bigint", str(v)]
         if int(f) != v:
-            return ["bigint", str(v)]
+            try:
+                return ["bigint", str(v)]
+            except ValueError:  # more digits than int -> str conversion allows
+                return ["bigint", "~2^%d" % v.bit_length()]
         return ["n", numkey(f)]
     if isinstance(v, float):
         return ["n", numkey(v)]
